@@ -169,10 +169,10 @@ PROPS["C20"] = {
 }
 PROPS["C04"] = {
     "engine": "mir-bmc", "technique": _M_TECH,
-    "bounds": "engine M: uni movable full-sync and atomic channels and the Multi arc/atomic and arc/full-sync channels (send = Arc::new + fan-out + per-listener wake rule), MAX_STREAMS 1 (and 2 with one stream created, uni atomic channel), entry points send and reserve_slot + try_send_reserved, one stream whose task is driven by an executor model (poll_next; park when Pending; re-poll when its waker was invoked); 1 producer x 1-2 sends (quick), 2 producers / 3 sends with BUFFER_SIZE 4 (thorough); stream either never polled before or parked with its waker registered; violation = quiescent state with producers returned, task parked and un-woken, event pending; functions: <channel>::send, StreamsManagerBase::{wake_stream, register_stream_waker, keep_stream_running}, MutinyStream::poll_next, <channel>::consume, ring publish/consume",
-    "outside": "send_with / send_with_async wake rules (same rule as send in the source, not encoded); the OgreArc, crossbeam and log Multi channels; two streams created at once; Tokio's own wake-to-poll latency (the model re-polls whenever woken); zero-copy and crossbeam channels",
+    "bounds": "engine M: uni movable full-sync and atomic channels the Multi arc/atomic and arc/full-sync channels (send = Arc::new + fan-out + per-listener wake rule) and the mmap-log Multi channel (MmapLog::send over the log topic, 1-2 producers), MAX_STREAMS 1 (and 2 with one stream created, uni atomic channel), entry points send and reserve_slot + try_send_reserved, one stream whose task is driven by an executor model (poll_next; park when Pending; re-poll when its waker was invoked); 1 producer x 1-2 sends (quick), 2 producers / 3 sends with BUFFER_SIZE 4 (thorough); stream either never polled before or parked with its waker registered; violation = quiescent state with producers returned, task parked and un-woken, event pending; functions: <channel>::send, StreamsManagerBase::{wake_stream, register_stream_waker, keep_stream_running}, MutinyStream::poll_next, <channel>::consume, ring publish/consume",
+    "outside": "send_with / send_with_async wake rules (same rule as send in the source, not encoded); the OgreArc and crossbeam Multi channels; two streams created at once; Tokio's own wake-to-poll latency (the model re-polls whenever woken); zero-copy and crossbeam channels",
     "assumptions": [_M_NOTE, "a Waker is an abstract task id; Waker::{clone, will_wake, wake_by_ref} are intrinsics; ogre_sync::lock's retry ladder is encoded as one retrying CAS after its MIR was checked to be exactly that"],
-    "m": [M("c04_atomic_parked_k2_vs_send_n4"), M("c04_multi_arc_atomic_parked_k2_vs_send_n4"), M("c04_atomic_parked_vs_reserved_ms2"), M("c04_full_sync_first_park_vs_send"), M("c04_atomic_first_park_vs_send"), M("c04_multi_arc_full_sync_parked_vs_send"),
+    "m": [M("c04_atomic_parked_k2_vs_send_n4"), M("c04_multi_arc_atomic_parked_k2_vs_send_n4"), M("c04_atomic_parked_vs_reserved_ms2"), M("c04_full_sync_first_park_vs_send"), M("c04_multi_arc_full_sync_parked_vs_send"), M("c04_mmap_log_parked_vs_send"), M("c04_mmap_log_parked_vs_two_producers"), M("c04_atomic_first_park_vs_send", "thorough"), M("c04_mmap_log_first_park_vs_send", "thorough"),
           M("c04_full_sync_parked_vs_send", "thorough"), M("c04_atomic_parked_vs_send_ms2", "thorough"), M("c04_full_sync_parked_k2_vs_send_n4", "thorough"), M("c04_multi_arc_atomic_parked_vs_send", "thorough"), M("c04_multi_arc_atomic_first_park_vs_send", "thorough"),
           M("c04_multi_arc_full_sync_parked_k2_vs_send_n4", "thorough"), M("c04_atomic_parked_vs_reserved_ms1", "thorough"), M("c04_atomic_parked_vs_two_sends", "thorough"), M("c04_full_sync_parked_vs_two_producers", "thorough"), M("c04_atomic_parked_vs_three_sends_n4", "thorough")],
     "k": [],
@@ -189,12 +189,12 @@ PROPS["C05"] = {
 }
 PROPS["C07"] = {
     "engine": "mir-bmc", "technique": _M_TECH,
-    "bounds": "engine M: uni movable atomic and full-sync channels and the Multi arc/atomic channel, MAX_STREAMS 1-2 with 1-2 streams, each stream's task driven by an executor model (poll_next; park when Pending; re-poll when its waker was invoked; return when it answers end-of-stream); the request is <channel>::cancel_all_streams() or StreamsManagerBase::cancel_stream(id) (what gracefully_end_stream issues after its flush), racing every step of poll_next (before the first poll, between the consume attempt / keep-running check and the waker registration, while parked, while items are buffered) and optionally one concurrent send; BUFFER_SIZE 2, 0-1 buffered events, origin any u32",
+    "bounds": "engine M: uni movable atomic and full-sync channels the Multi arc/atomic channel and the mmap-log Multi channel, MAX_STREAMS 1-2 with 1-2 streams, each stream's task driven by an executor model (poll_next; park when Pending; re-poll when its waker was invoked; return when it answers end-of-stream); the request is <channel>::cancel_all_streams() or StreamsManagerBase::cancel_stream(id) (what gracefully_end_stream issues after its flush), racing every step of poll_next (before the first poll, between the consume attempt / keep-running check and the waker registration, while parked, while items are buffered) and optionally one concurrent send; BUFFER_SIZE 2, 0-1 buffered events, origin any u32",
     "outside": "the 1 ms re-wake loop of end_stream / end_all_streams (async fns over Tokio timers, see C06); stream-id recycling after the drop (sync_vacant_and_used_streams uses Vec/sort: outside the MIR subset; decided sequentially under C10); zero-copy, crossbeam and Multi channels (they share StreamsManagerBase and MutinyStream::poll_next verbatim and differ only in consume()); more than 2 streams",
     "assumptions": [_M_NOTE, "a Waker is an abstract task id; Waker::{clone, will_wake, wake_by_ref} are intrinsics; the executor re-polls a task whenever its waker was invoked and never otherwise",
                     "a targeted stream whose task returns has answered end-of-stream (the task model returns only on Poll::Ready(None))"],
     "functions": ["<uni channel>::{cancel_all_streams, send, consume, keep_stream_running, register_stream_waker}", "StreamsManagerBase::{cancel_all_streams, cancel_stream, wake_stream, register_stream_waker, keep_stream_running}", "MutinyStream::poll_next", "ring publish/consume"],
-    "m": [M("c07_atomic_cancel_all_vs_first_poll"), M("c07_atomic_cancel_all_vs_parked_k0"), M("c07_atomic_cancel_all_vs_parked_k1"), M("c07_full_sync_cancel_all_vs_first_poll"), M("c07_atomic_cancel_one_of_two"), M("c07_multi_arc_atomic_cancel_all_vs_first_poll"), M("c07_multi_arc_atomic_cancel_all_vs_parked_k1"), M("c07_atomic_cancel_all_vs_send", "thorough"),
+    "m": [M("c07_atomic_cancel_all_vs_first_poll"), M("c07_atomic_cancel_all_vs_parked_k0"), M("c07_atomic_cancel_all_vs_parked_k1"), M("c07_full_sync_cancel_all_vs_first_poll"), M("c07_atomic_cancel_one_of_two"), M("c07_multi_arc_atomic_cancel_all_vs_first_poll"), M("c07_mmap_log_cancel_all_vs_first_poll"), M("c07_multi_arc_atomic_cancel_all_vs_parked_k1"), M("c07_atomic_cancel_all_vs_send", "thorough"),
           M("c07_atomic_cancel_all_two_streams", "thorough"), M("c07_full_sync_cancel_all_vs_send_parked", "thorough"), M("c07_full_sync_cancel_one_of_two_parked", "thorough")],
     "k": [],
 }
